@@ -85,6 +85,9 @@ def cases(seed, tier):
                              "detectors": [["g", {"name": name, "args": args}]], "actions": [W.act("a%d" % k)]})
         pf = {nm: gen_values(rng, rng.choice([10, 40, 60, 80])) for nm in NAMES}
         uf = {nm: gen_values(rng, rng.choice([512 << 20, 1 << 30, 3 << 29, 2 << 30, mem_total_kb * 512])) for nm in NAMES}
+        # anon share per cgroup, uncorrelated with total usage (the biggest cgroup is not the biggest by anon)
+        afk = {nm: rng.choice([0.05, 0.3, 0.6, 0.95, None]) for nm in NAMES}
+        af = {nm: (lambda t, nm=nm: afk[nm] if afk[nm] is not None else rng.choice([0.1, 0.5, 0.9])) for nm in NAMES}
         present = {nm: True for nm in NAMES}
 
         def spec(nm, t, pg):
@@ -93,7 +96,7 @@ def cases(seed, tier):
             cur = int(uf[nm](t))
             return W.cgroup(current=cur, mem_pressure=W.psi(full=(a10, a60, rng.uniform(0, 50), 5 + t)),
                             io_pressure=W.psi(full=(a60, a10, rng.uniform(0, 50), 5 + t)),
-                            stat=W.memstat({"anon": int(cur * 0.6), "pgscan": pg}), nr_dying=rng.choice([0, 0, 1, 5, 6, 200]))
+                            stat=W.memstat({"anon": int(cur * af[nm](t)), "pgscan": pg}), nr_dying=rng.choice([0, 0, 1, 5, 6, 200]))
 
         pgs = {nm: rng.choice([0, 100]) for nm in NAMES}
         cgs = {"/": W.root_cgroup(), "wl": W.cgroup(current=1 << 20, mem_pressure=W.psi(full=(55.0, 45.0, 5.0, 1)), nr_dying=2)}
